@@ -185,6 +185,21 @@ def random_case(rng, n):
     return mk_case(inv, rng)
 
 
+def confusable_case(rng, n):
+    """component and port names that contain the separator of the `component:port` string form, so that different
+    (component, port) pairs have the same joined name: ("P:Q", "R") / ("P", "Q:R")"""
+    comps = rng.sample(["P", "P:Q", "Q", "Q:R", "P:Q:R", "R", ":", "P:"], n)
+    inports = ["R", "Q:R", ":R", "i"]
+    outports = ["o", "o:o", "Q:o", ":"]
+    inv = {c: {} for c in comps if rng.random() < 0.9}
+    src = (rng.choice(comps), rng.choice(outports))
+    for c in inv:
+        for q in rng.sample(inports, rng.randrange(0, 4)):
+            # often the SAME output feeds several confusable (component, port) pairs
+            inv[c][q] = src if rng.random() < 0.6 else (rng.choice(comps), rng.choice(outports))
+    return mk_case(inv, rng)
+
+
 def run(tier, seed, drv):
     res = Result()
     rng = random.Random(seed)
@@ -195,6 +210,8 @@ def run(tier, seed, drv):
         n_exh = len(cases)
     for _ in range(400 if tier == "quick" else 4000):
         cases.append(random_case(rng, rng.randrange(1, 11)))
+    for _ in range(200 if tier == "quick" else 2000):
+        cases.append(confusable_case(rng, rng.randrange(2, 6)))
     res.exhaustive = True
     B = 5000
     for i in range(0, len(cases), B):
@@ -212,7 +229,7 @@ def run(tier, seed, drv):
             for v in monitor(c["inv"], real, c["routes"]):
                 res.violate(v, {"inv": {a: {q: list(s) for q, s in vv.items()} for a, vv in c["inv"].items()}, "routes": c["routes"], "extra_roots": c["extra_roots"]})
     res.rule = (f"every inverse wiring over {'3' if tier == 'thorough' else '2'} components x 2 input ports x 2 output ports with at most one source per "
-                f"input port ({n_exh} wirings incl. cycles and self-loops) plus seeded wirings up to 10 components, shared port names, "
+                f"input port ({n_exh} wirings incl. cycles and self-loops) plus seeded wirings up to 10 components, shared port names, component and port names containing the ':' of the component:port string form, "
                 "sources that are not keys; for each: conversions both ways, round trips, component sets, both trees, dependants of every "
                 "component and of an unknown one, route of random change sets incl. an unwired port; non-trivial = at least one connection")
     return res
